@@ -345,7 +345,7 @@ func (m *Mux) serveHTTP(w http.ResponseWriter, r *http.Request) error {
 	if err != nil {
 		return err
 	}
-	params = append(params, queryParams...)
+	params = append(queryParams, params...) // path variables override query params
 
 	hd, err := s.pickMethodHandler(method.name)
 	if err != nil {
